@@ -435,6 +435,8 @@ def feasible(path: Path) -> bool:
         for name, val in defs.items():
             if isinstance(val, ast.Constant):
                 consts[name] = val.value
+            elif isinstance(val, ast.Name) and val.id in consts and val.id not in defs:
+                consts[name] = consts[val.id]
             else:
                 consts.pop(name, None)
         if everything:
